@@ -25,6 +25,7 @@ import (
 	"strconv"
 	"strings"
 	"syscall"
+	"time"
 
 	libaudit "github.com/elastic/go-libaudit/v2"
 
@@ -90,7 +91,10 @@ type KCase struct {
 	Seq0      uint32 `json:"seq0,omitempty"`
 	BufLen    int    `json:"buf_len,omitempty"`
 	CloseFail bool   `json:"close_fail,omitempty"`
-	Ops       []KOp  `json:"ops,omitempty"`
+	// every Receive call of the simulated kernel takes this many milliseconds (the model has no clock: the outcome of a
+	// history depends on what the kernel sends and how often a receive fails, not on how long a receive takes)
+	RecvDelayMs int   `json:"recv_delay_ms,omitempty"`
+	Ops         []KOp `json:"ops,omitempty"`
 	// fromwire
 	Prior string `json:"prior,omitempty"` // hex, 44 bytes: the receiver's previous content
 	Buf   string `json:"buf,omitempty"`   // hex: the buffer decoded (fromwire), the payload (perr, echo), the datagram (spoof)
@@ -231,6 +235,7 @@ func runClientImpl(c KCase) *clientRun {
 	defer guardLeave()
 	bl := maxDatagram(c)
 	sim := simkernel.New(c.Seq0, bl, c.CloseFail)
+	sim.RecvDelay = time.Duration(c.RecvDelayMs) * time.Millisecond
 	cl := &libaudit.AuditClient{Netlink: sim}
 	run := &clientRun{Pid: uint32(os.Getpid())}
 	seq := c.Seq0
@@ -470,6 +475,20 @@ func runClientCase(ctx *Ctx, m *common.Model, c KCase, idx int) *common.Violatio
 	return &common.Violation{Kind: "correspondence", Clause: "harness: unknown case kind " + c.Kind, Input: c, Case: idx}
 }
 
+// ownClause: a monitor clause names the property (or properties, "C08,C16: ...") whose statement it reads.
+func ownClause(cl, prop string) bool {
+	i := strings.IndexByte(cl, ':')
+	if i < 0 {
+		return false
+	}
+	for _, p := range strings.Split(cl[:i], ",") {
+		if p == prop {
+			return true
+		}
+	}
+	return false
+}
+
 func runHistoryCase(ctx *Ctx, m *common.Model, c KCase, idx int) *common.Violation {
 	run := runClientImpl(c)
 	impl := make([]string, len(run.Obs))
@@ -488,7 +507,7 @@ func runHistoryCase(ctx *Ctx, m *common.Model, c KCase, idx int) *common.Violati
 	implAll := strings.Join(impl, " | ") + " | late=" + run.Late
 	sibling := ""
 	if cl := historyMonitor(c, run); cl != "" {
-		if strings.HasPrefix(cl, ctx.Prop+":") {
+		if ownClause(cl, ctx.Prop) {
 			return &common.Violation{Kind: "monitor", Clause: cl, Input: c, Impl: implAll, Case: idx}
 		}
 		// the family shares one monitor: a failed clause of a sibling property is not a monitor
